@@ -1,6 +1,7 @@
 \* C23 EvmProof: canonical chain 200..206, BlocksToWait 1, fork header at 203, deposits in the canonical state from 203
 SPECIFICATION Spec
-CONSTANTS G0 = 200
+CONSTANTS Mode = "chain"
+          G0 = 200
           Best = 206
           Wait = 1
           ForkAt = 203
